@@ -235,6 +235,9 @@ func (t *tagInterceptor) WrapUnary(next connect.UnaryFunc) connect.UnaryFunc {
 		if o := t.w.byID[req.Header().Get(callHeader)]; o != nil && !req.Spec().IsClient {
 			o.InterceptLog = append(o.InterceptLog, t.tag+":in")
 			defer func() { o.InterceptLog = append(o.InterceptLog, t.tag+":out") }()
+			if o.Plan.InterceptorErr && t.tag == "i0" {
+				return nil, o.Plan.HErr.build(ctx)
+			}
 		}
 		return next(ctx, req)
 	}
@@ -249,6 +252,9 @@ func (t *tagInterceptor) WrapStreamingHandler(next connect.StreamingHandlerFunc)
 		if o := t.w.byID[conn.RequestHeader().Get(callHeader)]; o != nil {
 			o.InterceptLog = append(o.InterceptLog, t.tag+":in")
 			defer func() { o.InterceptLog = append(o.InterceptLog, t.tag+":out") }()
+			if o.Plan.InterceptorErr && t.tag == "i0" {
+				return o.Plan.HErr.build(ctx)
+			}
 		}
 		return next(ctx, conn)
 	}
